@@ -226,6 +226,9 @@ def sexp(node, inline):
         for v in node.values[1:]:
             out = f"(SBin {coq_string(op)} {out} {sexp(v, inline)})"
         return out
+    if isinstance(node, ast.Call) and isinstance(node.func, ast.Name) and node.func.id == "len" \
+            and len(node.args) == 1 and isinstance(node.args[0], ast.Name) and not node.keywords:
+        return f"(SAttr (SName {coq_string(node.args[0].id)}) \"size\")"     # len(inp) of the flattened input
     if isinstance(node, ast.Call):
         f = node.func
         name = f.attr if isinstance(f, ast.Attribute) else getattr(f, "id", None)
@@ -266,10 +269,50 @@ def skeleton_stmts(stmts_in, no_inline=False):
     steps = []
     inline = {}
     opaque = [0]
+    closures = {}          # local functions that assign flags: name -> FunctionDef
+    inlined_calls = [0]
+
+    def inline_closure(call, guards):
+        """run_test(suspect_threshold, QartodFlags.SUSPECT): the flag assignments of the local function, with the
+        flag parameter replaced by the argument and every name local to the function suffixed by the call's other
+        arguments (`test_results@suspect_threshold`: a boolean array the environment must supply per call)."""
+        fd = closures[call.func.id]
+        a = fd.args
+        need(not (a.vararg or a.kwarg or a.kwonlyargs or a.posonlyargs or a.defaults) and not call.keywords
+             and len(call.args) == len(a.args), f"skeleton: unsupported call of {fd.name}, line {call.lineno}")
+        bind = {p.arg: v for p, v in zip(a.args, call.args)}
+        others = [v for v in call.args if not is_flag_value(v)]
+        need(all(isinstance(v, ast.Name) for v in others), f"skeleton: argument of {fd.name} is not a name, line {call.lineno}")
+        suffix = "@" + ",".join(v.id for v in others)
+        local = {n.id for st in ast.walk(fd) for n in ([st] if isinstance(st, ast.Name) and isinstance(st.ctx, ast.Store) else [])}
+        g = "[" + "; ".join(guards) + "]"
+        for st in fd.body:
+            if isinstance(st, (ast.Expr, ast.Pass)) and not isinstance(getattr(st, "value", None), ast.Call):
+                continue                                    # docstring
+            if not _has_flag_assign(st):
+                need(not isinstance(st, (ast.Return,)), f"skeleton: return inside {fd.name}")
+                continue
+            need(isinstance(st, ast.Assign) and len(st.targets) == 1, f"skeleton: flag assignment under control flow in {fd.name}, line {st.lineno}")
+            tg = st.targets[0]
+            need(isinstance(tg, ast.Subscript) and isinstance(tg.value, ast.Name) and tg.value.id in FLAG_ARRAY_NAMES
+                 and isinstance(tg.slice, ast.Name) and tg.slice.id in local and tg.slice.id not in bind,
+                 f"skeleton: unsupported flag assignment in {fd.name}, line {st.lineno}")
+            need(isinstance(st.value, ast.Name) and st.value.id in bind and is_flag_value(bind[st.value.id]),
+                 f"skeleton: the flag written by {fd.name} is not its flag argument, line {st.lineno}")
+            steps.append(f"SWhere {g} (SName {coq_string(tg.slice.id + suffix)}) {bind[st.value.id].attr}")
+        inlined_calls[0] += 1
 
     def walk(stmts, guards):
         guards = list(guards)
         for st in stmts:
+            if isinstance(st, ast.FunctionDef) and _has_flag_assign(st):
+                need(not no_inline, f"skeleton: nested function with flag assignments inside a loop, line {st.lineno}")
+                closures[st.name] = st
+                continue
+            if isinstance(st, ast.Expr) and isinstance(st.value, ast.Call) and isinstance(st.value.func, ast.Name) \
+                    and st.value.func.id in closures:
+                inline_closure(st.value, guards)
+                continue
             if isinstance(st, ast.Assign) and len(st.targets) == 1:
                 tg = st.targets[0]
                 if isinstance(tg, ast.Subscript) and isinstance(tg.value, ast.Name) and tg.value.id in FLAG_ARRAY_NAMES \
@@ -309,6 +352,11 @@ def skeleton_stmts(stmts_in, no_inline=False):
             elif isinstance(st, (ast.For, ast.While, ast.Try, ast.FunctionDef)):
                 need(not _has_flag_assign(st), f"skeleton: flag assignment inside a loop / try / nested function, line {st.lineno}")
     walk(stmts_in, [])
+    if closures:
+        # every use of a flag-assigning local function must be one of the statement-level calls inlined above
+        uses = sum(1 for st in stmts_in for n in ast.walk(st)
+                   if isinstance(n, ast.Name) and isinstance(n.ctx, ast.Load) and n.id in closures)
+        need(uses == inlined_calls[0], "skeleton: a flag-assigning local function is used other than by a plain call statement")
     return steps
 
 
@@ -648,7 +696,8 @@ def generate(repo):
     # models by SkelP_*.v)
     for mn, name in [("qartod", "gross_range_test"), ("qartod", "spike_test"), ("qartod", "rate_of_change_test"),
                      ("qartod", "location_test"), ("qartod", "attenuated_signal_test"),
-                     ("argo", "speed_test"), ("axds", "valid_range_test"), ("qartod", "density_inversion_test")]:
+                     ("argo", "speed_test"), ("axds", "valid_range_test"), ("qartod", "density_inversion_test"),
+                     ("qartod", "flat_line_test")]:
         def _skel(mn=mn, name=name):
             st = skeleton(fn_of(mods[mn], name))
             need(st, f"skeleton of {name} is empty")
